@@ -295,6 +295,59 @@ package store
 //@ spec func mustWrite(p data.Point, db []data.Point) bool = !zeroT(p.Time) && (forall j int :: 0 <= j && j < len(db) && rowIs(db, j, p.Type, normKey(p.Key)) ==> ns(db[j].Time) <= ns(p.Time))
 // noFail(d): no database call has failed since the function was entered (given none had failed before)
 //@ spec func noFail(d *sql.DB) bool = !old(dbFailed(d)) ==> !dbFailed(d)
+// ---- sqlite.go: initJwtKey (C04: the token-signing key in use is the one in the file) -------------------------
+// keyBound(db): the value bound to the jwt_key column by the UPDATE (ghost, set at the statement; the statement text
+// with its argument is the anchor).
+//@ model func keyBound(db *sql.DB) []byte
+//@ extern crypto/rand.Read(b)
+//@   modifies b
+//@ extern database/sql.(*DB).Exec(db, query, args)
+//@ func (*DbSqlite).initJwtKey
+//@   props C04
+//@   local sdb *store.DbSqlite#1
+//@   local err error#1
+//@   requires sdb != nil
+//@   modifies &sdb.meta.JWTKey, state(sdb.db)
+//@   havoc state(sdb.db) at "sdb.db.Exec(\"UPDATE meta SET jwt_key = ?\", sdb.meta.JWTKey)"
+//@   assume key-bound-noted: sameSlice(keyBound(sdb.db), sdb.meta.JWTKey) at "sdb.db.Exec(\"UPDATE meta SET jwt_key = ?\", sdb.meta.JWTKey)"
+//@   assert [C04] a-real-key-is-stored: len(sdb.meta.JWTKey) == 20 at "sdb.db.Exec(\"UPDATE meta SET jwt_key = ?\", sdb.meta.JWTKey)"
+//@   ensures [C04] key-in-use-is-the-stored-one: err == nil ==> len(sdb.meta.JWTKey) == 20 && sameSlice(sdb.meta.JWTKey, keyBound(sdb.db))
+
+// NewSqliteDb: what exists in the file is kept on every start - a root and a signing key are only created when the meta
+// row read back has none (idempotent initialisation).
+//@ extern database/sql.Open(driver, dsn)
+//@   fresh res0
+//@   ensures res1 == nil ==> res0 != nil
+//@ extern database/sql.(*DB).QueryRow(db, query, args)
+//@   fresh res0
+//@   ensures res0 != nil
+//@ extern database/sql.(*Row).Scan(r, dest)
+//@   modifies pointees(dest)
+//@ func (*DbSqlite).initMeta
+//@   props C04
+//@   local sdb *store.DbSqlite#1
+//@   local rows *sql.Rows#1
+//@   local count int#1
+//@   requires sdb != nil
+//@   modifies &sdb.meta.ID, &sdb.meta.Version, &sdb.meta.RootID, &sdb.meta.JWTKey, state(sdb.db)
+//@   wrap64
+//@   assert [C04] meta-row-created-only-when-there-is-none: count < 1 at "sdb.db.Exec(\"INSERT INTO meta(id, version, root_id) VALUES(?, ?, ?)\", 0, 0, \"\")"
+//@   loop 1:
+//@     invariant rows != nil
+//@     modifies &sdb.meta.ID, &sdb.meta.Version, &sdb.meta.RootID, &sdb.meta.JWTKey, state(sdb.db)
+//@ extern store.(*DbSqlite).runMigrations(sdb)
+//@   requires sdb != nil
+//@   modifies &sdb.meta.Version, state(sdb.db)
+//@ extern store.(*DbSqlite).initRoot(sdb, rootID)
+//@   requires sdb != nil
+//@   modifies state(sdb.db)
+//@ func NewSqliteDb
+//@   props C04
+//@   local ret *store.DbSqlite#1
+//@   modifies state(sql.DB)
+//@   assert [C04] root-created-only-when-missing: ret.meta.RootID == "" at "ret.initRoot(rootID)"
+//@   assert [C04] key-generated-only-when-missing: len(ret.meta.JWTKey) <= 0 at "ret.initJwtKey()"
+
 //@ func checkPointValues
 //@   props C05
 //@   local points data.Points#1
